@@ -4,7 +4,7 @@ import WuffsVerif.Model.Rac.Reader
   case <id> size=<n> <chunk>*                 -> ok chunks=<k> size=<n> valid=<true|false>   (defines the file)
   open c=<concurrency>                        -> ok      (a fresh Reader on the current file)
       chunk    = lo:hi:<e|u>:<dataspec>          (e: stream ends with EOF, u: truncated stream)
-      dataspec = item(.item)*   item = <hex> | z<count> (NUL bytes) | -  (nothing)
+      dataspec = item(.item)*   item = <hex> | z<count> (NUL bytes) | g<seed>@<off>+<len> (harness stream) | -  (nothing)
   read <n>                 -> n=<k> bytes=<hex | #fnv1a64 when k > 48> err=<word>   ((k>0, eof) is printed as nil)
   seek <off> <whence>      -> pos=<p> err=<word>
   seekrange <lo> <hi>      -> err=<word>
@@ -26,9 +26,36 @@ def errWord : Option Err → String
   | none => "nil"
   | some e => e.word
 
+def mix64 (z : UInt64) : UInt64 :=
+  let z := (z ^^^ (z >>> 30)) * 0xBF58476D1CE4E5B9
+  let z := (z ^^^ (z >>> 27)) * 0x94D049BB133111EB
+  z ^^^ (z >>> 31)
+
+/-- byte `i` of the harness's pseudo-random stream `seed` (harness/cmd/c14/files.go genByte) -/
+def genByte (seed : UInt64) (i : Nat) : UInt8 :=
+  let h := mix64 (seed + UInt64.ofNat (i / 64) * 0x9E3779B97F4A7C15)
+  let k := h % 8
+  if k == 0 then 0
+  else if k == 1 then (mix64 (h + UInt64.ofNat (i % 64))).toUInt8
+  else ((97 : UInt64) + (h >>> 8) % 20 + mix64 (h + UInt64.ofNat (i % 64)) % 5).toUInt8
+
+/-- `g<seed>@<off>+<len>` -/
+def parseGen (s : String) : Option (List UInt8) :=
+  match s.splitOn "@" with
+  | [sd, rest] =>
+    match rest.splitOn "+" with
+    | [off, len] => do
+      let sd ← sd.toNat?
+      let off ← off.toNat?
+      let len ← len.toNat?
+      pure ((List.range len).map (fun i => genByte (UInt64.ofNat sd) (off + i)))
+    | _ => none
+  | _ => none
+
 def parseItem (s : String) : Option (List UInt8) :=
   if s == "-" then some []
   else if s.front == 'z' then (s.drop 1).toString.toNat?.map zeros
+  else if s.front == 'g' then parseGen (s.drop 1).toString
   else fromHex s
 
 def parseData (s : String) : Option (List UInt8) :=
